@@ -67,3 +67,30 @@ Theorem C09_full_bounded_waiting : forall d s p rows, wf_data_b d = true -> find
     end.
 Proof. exact C09_original. Qed.
 Print Assumptions C09_full_bounded_waiting.
+
+(* tie to the source, stage 3: the CONTROL SKELETON itself (which statement sits inside which `if`, the order of the
+   guarded blocks, where `break` / `continue` sit, which variable every assignment writes) is read from the C++ source
+   AS IT IS NOW by tools/gen_skel.py (gen/Skel.v) and executed by the interpreter of Skel.v with the guards of
+   gen/Guards.v; the model's step computes the same state, for all values `l0` left in the function-level locals *)
+Require Import TrV.Skel.
+From TrV Require Import Proofs.SkelTie.
+Theorem C09_revall_step_skeleton_is_code : forall d p k st c l0,
+  rstate_eq (rev_step d p k true st c) (run_rev revall_code d p k c GS.gen_revall_skel l0 st).
+Proof. exact revall_step_skel_tie. Qed.
+Print Assumptions C09_revall_step_skeleton_is_code.
+Theorem C09_revall_footpath_loop_skeleton_is_code : forall d p k c m r,
+  nth (rl_idx (rm_l m)) (rev_rows d c) row_default = r ->
+  let res := rev_loop_step revall_code d p k c GS.gen_revall_fp (m, false) r in
+  snd res = false /\ rl_idx (rm_l (fst res)) = S (rl_idx (rm_l m)) /\
+  rm_st (fst res) =
+  r_set_triple (rm_st m) (rev_fp_step p k c (minw_eff p c) (o_exit (r_ov (rm_st m) (c_trip c))) (r_triple (rm_st m)) r).
+Proof. exact revall_fp_step_skel_tie. Qed.
+Print Assumptions C09_revall_footpath_loop_skeleton_is_code.
+(* ... and the whole scan: entry slot as the source computes it, then the loop body iterated with the locals kept from
+   one connection to the next, whatever they hold at the start *)
+Theorem C09_revall_scan_skeleton_is_code : forall d p k l_init,
+  outcome_rel rstate_eq (rev_scan d p k true)
+    (rev_scan_skel revall_code GS.gen_revall_skel
+       (G.gen_revall_entry_hour (k_dep k) (k_arr k) (k_minAcc k) (k_minEgr k) (q_minw p) (k_maxAcc k) (k_maxEgr k)) l_init d p k).
+Proof. exact revall_scan_skel_tie. Qed.
+Print Assumptions C09_revall_scan_skeleton_is_code.
